@@ -495,7 +495,8 @@ def tt_ind2sub(
     if len(shape) == 0:
         # Order-0 index space: every linear index maps to the empty subscript
         return np.empty(shape=(idx.size, 0), dtype=int)
-    idx[idx < 0] += prod(shape)  # Handle negative indexing as simply as possible
+    # Handle negative indexing as simply as possible (without touching the caller's array)
+    idx = np.where(idx < 0, idx + prod(shape), idx)
     return np.array(np.unravel_index(idx, shape, order=order)).transpose()
 
 
